@@ -123,6 +123,30 @@ def odd_layer() -> Dict[str, Any]:
                          for r in rqs]}
 
 
+def endmarker_layer() -> Dict[str, Any]:
+    """A DYNAMIC-ENDMARKER-FIELD whose termination DOP does not cover the whole coded range
+    (LINEAR limited to 128..255): probing an item for the end marker reports an inconvertible
+    value in strict mode only - the result of decoding must not depend on that."""
+    from ..odxgen import dct_std, dop, p_value, u8const
+    from ..codecgen import linear
+    dobjs = [dop("u8", dct_std("A_UINT32", 8)),
+             dop("lim", dct_std("A_UINT32", 8), "A_UINT32",
+                 linear(0, 1, lo=(128, "CLOSED"), hi=(255, "CLOSED"))),
+             {"t": "STRUCT", "name": "item", "params": [p_value("k", "u8")], "byte_size": None},
+             {"t": "STRUCT", "name": "item2", "params": [p_value("k", "u8"), p_value("v", "u8")],
+              "byte_size": None},
+             {"t": "EMFIELD", "name": "emf", "struct": "item", "term_dop": "lim", "term_value": 255},
+             {"t": "EMFIELD", "name": "emf2", "struct": "item2", "term_dop": "lim", "term_value": 200}]
+    rqs = [{"name": "rq_emf", "params": [u8const("sid", 0x31), p_value("f", "emf"),
+                                         u8const("marker", 0xFF), p_value("t", "u8")]},
+           {"name": "rq_emf2", "params": [u8const("sid", 0x32), p_value("f", "emf2"),
+                                          u8const("marker", 200)]}]
+    return {"kind": "BASE-VARIANT", "name": "endmarkers", "dobjs": dobjs, "requests": rqs, "pos": [],
+            "neg": [], "gneg": [],
+            "services": [{"name": "svc_" + r["name"], "request": r["name"], "pos": [], "neg": []}
+                         for r in rqs]}
+
+
 def nrc_layer() -> Dict[str, Any]:
     """Services with several negative responses that differ only in their NRC-CONST lists,
     decoded through the layer and the service (the DecodeMismatch control flow)."""
@@ -220,7 +244,7 @@ def build_ops(tier: str, seed: int) -> Tuple[List[Dict[str, Any]], List[Tuple]]:
               for i in range(6 if tier == "quick" else 24)]
     for a in attrib:
         a["name"] = "attrib_" + a["name"]
-    models = grid + comp + [odd_layer(), nrc_layer()] + attrib
+    models = grid + comp + [odd_layer(), nrc_layer(), endmarker_layer()] + attrib
     ops: List[Tuple] = []
     for name, xml in load_documents():
         ops.append((-1, name, "load", xml))
@@ -257,6 +281,13 @@ def build_ops(tier: str, seed: int) -> Tuple[List[Dict[str, Any]], List[Tuple]]:
                 ops.append((li, "", "layerresp", (b, rq0)))
                 for sv in m["services"][:4]:
                     ops.append((li, sv["name"], "svcdec", b))
+            continue
+        if m["name"] == "endmarkers":
+            for h in ("3101020304ff09", "31ff09", "318081ff05", "31017f80ff00", "3101", "31",
+                      "3201020304c8", "32c8", "320102c8", "3281ff0304c8", "32010203"):
+                b = bytes.fromhex(h)
+                ops.append((li, "rq_emf" if h.startswith("31") else "rq_emf2", "dec", b))
+                ops.append((li, "", "layerdec", b))
             continue
         if m["name"] == "nrcs":
             msgs = [bytes.fromhex(h) for h in (
@@ -394,7 +425,7 @@ def child_main(mode: str, tier: str, seed: int, out_path: str) -> None:
     r2 = random.Random(seed + 99)
     from . import c05
     for li, m in enumerate(models):
-        if m["name"] in ("oddities", "nrcs") or m["name"].startswith("attrib_"):
+        if m["name"] in ("oddities", "nrcs", "endmarkers") or m["name"].startswith("attrib_"):
             continue
         for rq in m["requests"][:: (2 if tier == "quick" else 1)]:
             vals = next((o[3] for o in ops if o[0] == li and o[1] == rq["name"]), None)
